@@ -361,6 +361,13 @@ func (c *sctx) ident(x *EIdent) (Term, *SType) {
 	}
 	// package-level constants of the contract's package
 	if c.pkg != nil {
+		if x.Name == "initguard" { // the once-flag of the package initialiser
+			if sp := vc.env.byPath[c.pkg.Path()]; sp != nil {
+				if g, ok := sp.Members["init$guard"].(*ssa.Global); ok {
+					return c.derefPtr(vc.globalRef(g), deref(g.Type())), goT(deref(g.Type()))
+				}
+			}
+		}
 		if o := c.pkg.Scope().Lookup(x.Name); o != nil {
 			if t, ty, ok := c.pkgObject(o); ok {
 				return t, ty
@@ -1547,6 +1554,20 @@ func (c *sctx) modTargets(e Expr) []modTarget {
 		if g, ok := vc.env.gvars[x.Name]; ok {
 			gt := vc.resolveType(g.RetType, nil, nil)
 			return []modTarget{{comp: "G.var." + x.Name, sort: c.sortOf(gt), whole: true}}
+		}
+		// a Go package-level variable of the contract's package (written by the package initialiser only):
+		// its box location; "initguard" names the initialiser's own once-flag
+		if c.pkg != nil {
+			if sp := vc.env.byPath[c.pkg.Path()]; sp != nil {
+				name := x.Name
+				if name == "initguard" {
+					name = "init$guard"
+				}
+				if g, ok := sp.Members[name].(*ssa.Global); ok {
+					comp, cs := vc.boxComp(deref(g.Type()))
+					return []modTarget{{comp: comp, sort: cs, ref: vc.globalRef(g)}}
+				}
+			}
 		}
 	case *EUnary:
 		if x.Op == "*" {
